@@ -168,6 +168,42 @@ fn one_pure(c: &Cli, dir: &std::path::Path, k: usize, reuse: Option<&Cli>) -> Op
             return Some((format!("-o file does not decode: {}", e), "JSON of the library's range result".into()));
         }
     }
+    // the saved parameter file holds the run's parameters (decoded with the library's own decoders): the
+    // method's parameter set, the location to the bit, the dates.  If it did not, a replay could only
+    // reproduce the output by luck (rounded coordinates change a time once in a million entries).
+    {
+        let saved: Option<Value> = std::fs::read(&p1).ok().and_then(|b| serde_json::from_slice(&b).ok());
+        let want_p = Params::new(METHODS[c.method].0);
+        let want_l = loc(c.lat, c.lon, c.elev, c.gmt);
+        let problem = match &saved {
+            None => Some("the -p file is not a JSON document".to_string()),
+            Some(v) => {
+                let sp = v.get("params").cloned().and_then(|x| serde_json::from_value::<Params>(x).ok());
+                let sl = v.get("location").cloned().and_then(|x| serde_json::from_value::<Location>(x).ok());
+                let sd = v.get("date_range").cloned().and_then(|x| serde_json::from_value::<DateRange>(x).ok());
+                match (sp, sl, sd) {
+                    (Some(sp), Some(sl), Some(sd)) => {
+                        if sl != want_l {
+                            Some(format!("location in the -p file {:?} differs from the one given {:?}", sl, want_l))
+                        } else if sp.round_seconds != want_p.round_seconds || sp.asr_shadow_ratio != want_p.asr_shadow_ratio
+                            || sp.extreme_latitude_method != want_p.extreme_latitude_method || sp.angles != want_p.angles
+                            || sp.intervals != want_p.intervals || sp.minutes != want_p.minutes
+                        {
+                            Some(format!("parameters in the -p file differ from Params::new({:?}): policy {:?}", METHODS[c.method].0, sp.extreme_latitude_method))
+                        } else if *sd.start_date() != date_of_rd(c.start) || *sd.end_date() != date_of_rd(c.end) {
+                            Some(format!("dates in the -p file {}..{} differ from the ones given", sd.start_date(), sd.end_date()))
+                        } else {
+                            None
+                        }
+                    }
+                    _ => Some("the -p file does not decode into params/location/date_range".to_string()),
+                }
+            }
+        };
+        if let Some(pb) = problem {
+            return Some((pb, "the saved parameter file holds the parameters of the run (so that feeding it back reproduces the output)".into()));
+        }
+    }
     // run 2: -i with the saved parameter file must reproduce byte-identical output
     let a2 = vec!["-i".to_string(), p1.to_string_lossy().into_owned(), "-o".into(), o2.to_string_lossy().into_owned()];
     let (code2, _, err2) = run(&a2);
